@@ -955,15 +955,31 @@ func undoSigner(c *types.ChangeLog, processor types.ChangeLogProcessor) error {
 	return nil
 }
 
+// replacedCode is the OldVal of CodeLog. The hash can't be computed from the code, because an account without code has the zero hash or the hash of empty code
+type replacedCode struct {
+	code     types.Code
+	codeHash common.Hash
+}
+
+func (old *replacedCode) String() string {
+	return old.code.String()
+}
+
 // NewCodeLog records contract code setting
 func NewCodeLog(address common.Address, processor types.ChangeLogProcessor, code types.Code) *types.ChangeLog {
 	account := processor.GetAccount(address)
-	return &types.ChangeLog{
+	changeLog := &types.ChangeLog{
 		LogType: CodeLog,
 		Address: account.GetAddress(),
 		Version: account.GetNextVersion(CodeLog),
 		NewVal:  code,
 	}
+	// OldVal is nil if the account never had any code. Keep the old code itself, not only its hash. It is not in db yet if it was created in this block
+	if oldHash := account.GetCodeHash(); oldHash != (common.Hash{}) {
+		oldCode, _ := account.GetCode()
+		changeLog.OldVal = &replacedCode{code: oldCode, codeHash: oldHash}
+	}
+	return changeLog
 }
 
 func redoCode(c *types.ChangeLog, processor types.ChangeLogProcessor) error {
@@ -978,8 +994,22 @@ func redoCode(c *types.ChangeLog, processor types.ChangeLogProcessor) error {
 }
 
 func undoCode(c *types.ChangeLog, processor types.ChangeLogProcessor) error {
+	old := &replacedCode{}
+	if c.OldVal != nil {
+		var ok bool
+		old, ok = c.OldVal.(*replacedCode)
+		if !ok {
+			log.Errorf("undoCode expected OldVal *replacedCode, got %T", c.OldVal)
+			return types.ErrWrongChangeLogData
+		}
+	}
 	accessor := processor.GetAccount(c.Address)
-	accessor.SetCode(nil)
+	if len(old.code) > 0 {
+		accessor.SetCode(old.code)
+	} else {
+		// SetCode(nil) would set the hash of empty code and mark the code as dirty
+		accessor.SetCodeHash(old.codeHash)
+	}
 	return nil
 }
 
